@@ -22,6 +22,7 @@ import (
 	"github.com/ipld/go-car/v2/index"
 	"github.com/ipld/go-car/v2/storage"
 	"github.com/ipld/go-car/v2/verifbridge"
+	mh "github.com/multiformats/go-multihash"
 	"verif/sim"
 )
 
@@ -158,19 +159,13 @@ func runEntry(entry string, data []byte, profile string, del sim.Delivery, opts 
 			idx, err := produceIndex(prod, src, opts)
 			note(err)
 			if err == nil && idx != nil {
-				for _, k := range probeKeys {
-					idx.GetAll(k, func(uint64) bool { return true })
-				}
+				useIndex(idx, probeKeys)
 			}
 		case "indexreadfrom":
 			idx, err := index.ReadFrom(src.(io.Reader))
 			note(err)
 			if err == nil {
-				for _, k := range probeKeys {
-					idx.GetAll(k, func(uint64) bool { return true })
-				}
-				var b bytes.Buffer
-				index.WriteTo(idx, &b)
+				useIndex(idx, probeKeys)
 			}
 		case "readonly":
 			ro, err := blockstore.NewReadOnly(src.(io.ReaderAt), nil, o...)
@@ -183,6 +178,7 @@ func runEntry(entry string, data []byte, profile string, del sim.Delivery, opts 
 				ro.Get(bg, k)
 				ro.GetSize(bg, k)
 			}
+			useIndex(ro.Index(), nil)
 			_, rerr := ro.Roots()
 			note(rerr)
 			ctx, cancel := context.WithCancel(bg)
@@ -283,6 +279,29 @@ func runEntry(entry string, data []byte, profile string, del sim.Delivery, opts 
 		}
 	})
 	return
+}
+
+// useIndex does what a caller does with a loaded index: look keys up, iterate it (the way the
+// Inspect documentation recommends for vetting an untrusted index), serialise it again.
+func useIndex(idx index.Index, probeKeys []cid.Cid) {
+	if idx == nil {
+		return
+	}
+	for _, k := range probeKeys {
+		idx.GetAll(k, func(uint64) bool { return true })
+	}
+	if it, ok := idx.(index.IterableIndex); ok {
+		n := 0
+		it.ForEach(func(mh.Multihash, uint64) error {
+			n++
+			if n > 1<<20 {
+				return errors.New("enough")
+			}
+			return nil
+		})
+	}
+	var b bytes.Buffer
+	index.WriteTo(idx, &b)
 }
 
 // allocBound is the property's resource bound for one case.
@@ -461,6 +480,19 @@ func c09Mutations(l *Layout, r *Rng, n int) [][]Mut {
 	for _, f := range l.Fields() {
 		for _, v := range []uint64{1 << 24, 1 << 31, 1 << 36, 1<<63 - 1, 1<<64 - 1} {
 			out = append(out, []Mut{{Kind: "field", Field: f.Name, Val: v}})
+		}
+		// an empty index bucket in combination with each boundary width (two fields that must agree)
+		if strings.HasSuffix(f.Name, ".width") {
+			lenField := strings.TrimSuffix(f.Name, ".width") + ".len"
+			for _, w := range []uint64{0, 1, 7, 8, 9, 40, 1 << 31} {
+				out = append(out, []Mut{{Kind: "field", Field: f.Name, Val: w}, {Kind: "field", Field: lenField, Val: 0}})
+			}
+		}
+		// values that are small negative numbers when taken as int64 (relative seeks that go backwards)
+		if f.Kind == "varint" {
+			for _, k := range []uint64{1, 2, 3, 9, 10, 11, 12, 34, 35, 36, 37, 38, 44, 45, 46, 47, 48} {
+				out = append(out, []Mut{{Kind: "field", Field: f.Name, Val: ^uint64(0) - k + 1}})
+			}
 		}
 	}
 	return out
